@@ -696,10 +696,86 @@ Qed.
 
 End Make.
 
+(** ** Transposition *)
+
+Lemma col_length w (a : arr2) i :
+  Forall (fun r => length r = w) a -> i < w -> length (col i a) = length a.
+Proof.
+  intros Ha Hi. unfold col. induction Ha as [|r t Hr Ht IH]; [reflexivity|].
+  cbn [flat_map]. rewrite app_length, IH.
+  destruct (nth_error r i) eqn:E; [reflexivity|]. apply nth_error_None in E. lia.
+Qed.
+
+Lemma col_nth w (a : arr2) i j :
+  Forall (fun r => length r = w) a -> i < w -> nth_error (col i a) j = cell a j i.
+Proof.
+  intros Ha Hi. unfold col, cell. revert j. induction Ha as [|r t Hr Ht IH]; intros j.
+  - destruct j; reflexivity.
+  - cbn [flat_map]. destruct (nth_error r i) as [x|] eqn:E; [|apply nth_error_None in E; lia].
+    destruct j as [|j]; cbn [app nth_error]; [symmetry; exact E|apply IH].
+Qed.
+
+Lemma rect_width nn ne (a : arr2) : rect ne nn a = true -> 0 < ne -> length (hd [] a) = nn.
+Proof.
+  intros Ra Hne. apply rect_spec in Ra as [La Ra].
+  destruct a as [|r t]; [cbn in La; lia|]. inversion Ra; assumption.
+Qed.
+
+Lemma transpose_rect nn ne (a : arr2) :
+  rect ne nn a = true -> 0 < ne -> rect nn ne (transpose a) = true.
+Proof.
+  intros Ra Hne. pose proof (rect_width _ _ _ Ra Hne) as Hw.
+  apply rect_spec in Ra as [La Ra]. apply rect_spec.
+  unfold transpose. rewrite Hw. split; [rewrite map_length, seq_length; reflexivity|].
+  apply Forall_forall. intros c Hc. apply in_map_iff in Hc as (i & <- & Hi). apply in_seq in Hi.
+  rewrite (col_length nn); [exact La|exact Ra|lia].
+Qed.
+
+(** entry (i, j) of the transposed array is entry (j, i) *)
+Lemma transpose_cell nn ne (a : arr2) i j :
+  rect ne nn a = true -> 0 < ne -> i < nn -> cell (transpose a) i j = cell a j i.
+Proof.
+  intros Ra Hne Hi. pose proof (rect_width _ _ _ Ra Hne) as Hw.
+  apply rect_spec in Ra as [La Ra].
+  assert (Hs: nth_error (seq 0 nn) i = Some i).
+  { rewrite (nth_error_nth' _ 0) by (rewrite seq_length; exact Hi). rewrite seq_nth by exact Hi. reflexivity. }
+  unfold transpose. unfold cell at 1. rewrite Hw, nth_error_map, Hs. cbn [option_map].
+  apply (col_nth nn); assumption.
+Qed.
+
+Lemma dims_eqb_refl d : dims_eqb d d = true.
+Proof. unfold dims_eqb. rewrite !String.eqb_refl. reflexivity. Qed.
+
+Lemma dims_eqb_swap d0 d1 : d0 <> d1 -> dims_eqb (d1, d0) (d0, d1) = false.
+Proof. intros H. unfold dims_eqb. cbn [fst snd]. apply String.eqb_neq in H. rewrite H, andb_false_r. reflexivity. Qed.
+
+(** a variable transposed to (d0, d1), raveled: nn * ne entries, entry k is
+    the variable's value at cell (k / ne, k mod ne) *)
+Lemma oriented_ravel d0 d1 nn ne (v : var2 V) :
+  d0 <> d1 -> laid_out d0 d1 nn ne v ->
+  length (ravel (oriented d0 d1 v)) = nn * ne /\
+  forall k, k < nn * ne ->
+    nth_error (ravel (oriented d0 d1 v)) k = value_at d0 d1 v (k / ne) (k mod ne).
+Proof.
+  intros Hd [[Hv Rv]|[Hv Rv]]; unfold oriented, value_at; rewrite Hv.
+  - rewrite dims_eqb_refl. split; [apply length_ravel_rect; exact Rv|].
+    intros k Hk. apply (nth_error_ravel _ _ _ _ Rv Hk).
+  - rewrite (dims_eqb_swap _ _ Hd), dims_eqb_refl.
+    destruct (Nat.eq_dec ne 0) as [->|Hne].
+    + apply rect_spec in Rv as [La _]. apply length_zero_iff_nil in La. rewrite La.
+      split; [cbn; lia|]. intros k Hk. lia.
+    + assert (Hne': 0 < ne) by lia.
+      pose proof (transpose_rect _ _ _ Rv Hne') as Rt.
+      split; [apply length_ravel_rect; exact Rt|].
+      intros k Hk. destruct (divmod_idx _ _ _ Hk) as (Hi & _ & _).
+      rewrite (nth_error_ravel _ _ _ _ Rt Hk). apply (transpose_cell _ _ _ _ _ Rv Hne' Hi).
+Qed.
+
 (** ** grid_to_table *)
 
 (** one row per cell, row-major, each row holding the cell's coordinates,
-    extra coordinates and every variable *)
+    extra coordinates and every variable - whichever of the two dimension
+    orders each variable / coordinate is stored in *)
 Theorem table_rows (g : grid V) d0 d1 (north east : list V) :
   aligned_grid g d0 d1 north east ->
   let nn := length north in
@@ -711,18 +787,18 @@ Theorem table_rows (g : grid V) d0 d1 (north east : list V) :
     forall k, k < nn * ne ->
       table_row t k =
         nth_error north (k / ne) :: nth_error east (k mod ne)
-        :: map (fun p => coord_cell (snd p) (k / ne) (k mod ne)) extras
-        ++ map (fun p => cell (v_rows (snd p)) (k / ne) (k mod ne)) (grid_vars g).
+        :: map (fun p => coord_at d0 d1 (snd p) (k / ne) (k mod ne)) extras
+        ++ map (fun p => value_at d0 d1 (snd p) (k / ne) (k mod ne)) (grid_vars g).
 Proof.
-  intros ((nm & v0 & rest & Hv & Hd0) & Hn & He & FV & FC). cbv zeta.
+  intros (Hd & (nm & v0 & rest & Hv & Hd0) & Hn & He & FV & FC). cbv zeta.
   unfold grid_to_table.
   destruct (grid_vars g) as [|[nm' v0'] rest'] eqn:EV; [discriminate|].
   injection Hv as -> -> ->. cbv beta iota.
   rewrite Hd0. cbn [fst snd]. rewrite Hn, He. cbn [coord_values].
   set (vars := (nm, v0) :: rest) in *.
   set (extras := filter (is_extra d0 d1) (grid_coords g)).
-  assert (FX: forall p, In p extras -> exists v, snd p = Aux v /\ v_dims v = (d0, d1) /\
-                rect (length north) (length east) (v_rows v) = true).
+  assert (FX: forall p, In p extras -> exists v, snd p = Aux v /\
+                laid_out d0 d1 (length north) (length east) v).
   { intros p Hp. apply filter_In in Hp as [Hp1 Hp2]. rewrite Forall_forall in FC. apply FC; assumption. }
   rewrite Forall_forall in FV.
   eexists. split; [reflexivity|]. split; [|split].
@@ -732,17 +808,17 @@ Proof.
     + apply length_ravel_rect. apply rect_mesh_e.
     + apply Forall_app. split; apply Forall_forall; intros c Hc;
         apply in_map_iff in Hc as (p & <- & Hp); cbn [snd].
-      * destruct (FX p Hp) as (v & -> & _ & Rv). cbn [coord_values].
-        apply length_ravel_rect. exact Rv.
-      * apply length_ravel_rect. apply (FV p Hp).
+      * destruct (FX p Hp) as (v & -> & Lv). cbn [coord_oriented].
+        apply (oriented_ravel _ _ _ _ _ Hd Lv).
+      * apply (oriented_ravel _ _ _ _ _ Hd (FV p Hp)).
   - intros k Hk. destruct (divmod_idx _ _ _ Hk) as (Hi & Hj & _).
     unfold table_row. cbn [map snd]. rewrite map_app, !map_map. cbn [snd].
     rewrite (nth_error_ravel _ _ _ _ (rect_mesh_n east north) Hk), (cell_mesh_n _ _ _ _ Hj).
     rewrite (nth_error_ravel _ _ _ _ (rect_mesh_e east north) Hk), (cell_mesh_e _ _ _ _ Hi).
     f_equal. f_equal. f_equal.
-    + apply map_ext_in. intros p Hp. destruct (FX p Hp) as (v & -> & _ & Rv).
-      cbn [coord_values coord_cell]. apply (nth_error_ravel _ _ _ _ Rv Hk).
-    + apply map_ext_in. intros p Hp. apply (nth_error_ravel _ _ _ _ (proj2 (FV p Hp)) Hk).
+    + apply map_ext_in. intros p Hp. destruct (FX p Hp) as (v & -> & Lv).
+      cbn [coord_oriented coord_at]. apply (proj2 (oriented_ravel _ _ _ _ _ Hd Lv) k Hk).
+    + apply map_ext_in. intros p Hp. apply (proj2 (oriented_ravel _ _ _ _ _ Hd (FV p Hp)) k Hk).
 Qed.
 
 (** ** The decidable table statement is what [table_rows] establishes: the
@@ -752,14 +828,11 @@ Lemma list_eqb_refl {A} (eqb : A -> A -> bool) (l : list A) :
   (forall x, eqb x x = true) -> list_eqb eqb l l = true.
 Proof. intros H. induction l as [|x l IH]; cbn; [reflexivity|]. rewrite H, IH. reflexivity. Qed.
 
-Lemma dims_eqb_refl d : dims_eqb d d = true.
-Proof. unfold dims_eqb. rewrite !String.eqb_refl. reflexivity. Qed.
-
 Theorem table_holds_model (g : grid V) d0 d1 (north east : list V) :
   aligned_grid g d0 d1 north east ->
   table_holds veqb g (grid_to_table g) = true.
 Proof.
-  intros Hal. pose proof Hal as ((nm & v0 & rest & Hv & Hd0) & Hn & He & FV & FC).
+  intros Hal. pose proof Hal as (Hd & (nm & v0 & rest & Hv & Hd0) & Hn & He & FV & FC).
   destruct (table_rows _ _ _ _ _ Hal) as (t & Ht & Hnames & Hlen & Hrows).
   rewrite Ht. unfold table_holds. rewrite Hv. cbv beta iota.
   rewrite Hd0. cbn [fst snd]. rewrite Hn, He. rewrite <- Hv.
@@ -770,18 +843,7 @@ Proof.
     apply Nat.eqb_eq. apply Hlen. exact Hc.
   - apply forallb_forall. intros k Hk. apply in_seq in Hk.
     rewrite Hrows by lia.
-    assert (E1: map (fun p : string * coord V => coord_at d0 d1 (snd p) (k / length east) (k mod length east))
-                  (filter (is_extra d0 d1) (grid_coords g))
-              = map (fun p => coord_cell (snd p) (k / length east) (k mod length east))
-                  (filter (is_extra d0 d1) (grid_coords g))).
-    { apply map_ext_in. intros p Hp. apply filter_In in Hp as [Hp1 Hp2].
-      rewrite Forall_forall in FC. destruct (FC p Hp1 Hp2) as (v & -> & Hdv & _).
-      cbn [coord_at coord_cell]. unfold value_at. rewrite Hdv, dims_eqb_refl. reflexivity. }
-    assert (E2: map (fun p : string * var2 V => value_at d0 d1 (snd p) (k / length east) (k mod length east)) (grid_vars g)
-              = map (fun p => cell (v_rows (snd p)) (k / length east) (k mod length east)) (grid_vars g)).
-    { apply map_ext_in. intros p Hp. rewrite Forall_forall in FV. destruct (FV p Hp) as [Hdv _].
-      unfold value_at. rewrite Hdv, dims_eqb_refl. reflexivity. }
-    rewrite E1, E2. apply list_eqb_refl. intros [x|]; cbn; [apply veqb_spec; reflexivity|reflexivity].
+    apply list_eqb_refl. intros [x|]; cbn; [apply veqb_spec; reflexivity|reflexivity].
 Qed.
 
 (** ** arrays -> grid -> table *)
@@ -825,11 +887,14 @@ Proof.
   unfold is_extra at 1. cbn [fst].
   rewrite String.eqb_refl. cbn [orb negb].
   rewrite Hf by (rewrite map_fst_combine by exact LX; assumption).
+  assert (Ho: forall a : arr2, oriented (fst dims) (snd dims) (mk_var dims a) = a).
+  { intros a. unfold oriented, dims_eqb. cbn [v_dims v_rows fst snd].
+    rewrite !String.eqb_refl. reflexivity. }
   f_equal.
-  - rewrite map_map. cbn [fst snd coord_values v_rows].
-    apply (map_combine_snd (@ravel V)).
-  - rewrite <- (map_combine_snd (@ravel V)), EC. cbn [map fst snd v_rows]. f_equal.
-    rewrite map_map. reflexivity.
+  - rewrite map_map. rewrite <- (map_combine_snd (@ravel V)).
+    apply map_ext. intros p. cbn [fst snd coord_oriented]. rewrite Ho. reflexivity.
+  - rewrite <- (map_combine_snd (@ravel V)), EC. cbn [map fst snd]. rewrite Ho. f_equal.
+    rewrite map_map. apply map_ext. intros p. cbn [fst snd]. rewrite Ho. reflexivity.
 Qed.
 
 (** on an exact 2-D meshgrid the coordinate columns are the raveled input
